@@ -22,6 +22,33 @@ WFI = "quil_rs::instruction::waveform::WaveformInvocation"
 EXPECT_WRITTEN = {"calibrations", "frames", "waveforms", "extern_pragma_map"}
 
 
+def _polarity(db, g, e, depth=0):
+    """'member' if the boolean expression is a positive membership test (`used.contains(x)`), 'not member' / a description
+    if it is negated or defaults to true, None if not recognised"""
+    if depth > 4:
+        return None
+    if e[0] == "call":
+        nm = e[1].rsplit("::", 1)[-1]
+        if nm == "contains":
+            return "member"
+        if nm in ("unwrap_or", "map_or") and len(e[2]) >= 2:
+            default = e[2][1] if nm == "unwrap_or" else e[2][1]
+            dval = default[1] if default[0] == "const" else None
+            if dval not in (0, "false", False):
+                return "absent name kept (default %s)" % (dval,)
+            inner = e[2][0] if nm == "unwrap_or" else e[2][2]
+            return _polarity(db, g, inner, depth + 1)
+        if nm in ("map", "is_some_and", "and_then") and len(e[2]) >= 2 and e[2][1][0] == "closure":
+            hs = db.by_path.get(e[2][1][1], [])
+            if len(hs) == 1:
+                return _polarity(db, hs[0], fn_expr_operand(hs[0], {"m": {"l": 0, "pr": []}}), depth + 1)
+        return None
+    if e[0] == "un" and e[1] == "Not":
+        inner = _polarity(db, g, e[2], depth + 1)
+        return "not member" if inner == "member" else None
+    return None
+
+
 def run(ctx):
     res = Result("C35")
     db = ctx.db("quil_rs")
@@ -153,6 +180,20 @@ def run(ctx):
                     for g in db.closures_of(f):
                         if any(c3 and c3.get("name") == "contains" for b3, t3, c3 in g.calls()) and in_span(g.raw["hsp"], t2["sp"]):
                             ok = True
+                    # ... and keeps an entry exactly when its name IS in the used set: the predicate is the membership test
+                    # itself (not negated); for the optional name of an extern pragma, an absent name keeps nothing
+                    for g in db.closures_of(f):
+                        if g.path.count("{closure#") != 1 or not in_span(g.raw["hsp"], t2["sp"]):
+                            continue
+                        ret_ = fn_expr_operand(g, {"m": {"l": 0, "pr": []}})
+                        pol = _polarity(db, g, ret_)
+                        key_p = "K5|%s-kept-iff-used" % store
+                        if pol is None:
+                            res.site(key_p, False, {"verdict": "undecided: predicate shape not recognised"})
+                        else:
+                            res.site(key_p, True, {"predicate": pol, "verdict": "ok" if pol == "member" else "VIOLATION"})
+                            if pol != "member":
+                                res.find(key_p, g.loc(), "simplify keeps an entry of `%s` under `%s` instead of exactly when its name is in the used set" % (store, pol), "every used waveform is dropped and every unused one kept; or a PRAGMA EXTERN without a name survives")
         if src_name:
             ok = ok and any(c2 and c2.get("name") == src_name for b2, t2, c2 in f.calls())
         res.site(key, True, {"store": store, "verdict": "ok" if ok else "VIOLATION"})
